@@ -13,7 +13,7 @@ EVIDENCE = dict(
          "nothing or a heading level (built-in style, name only in either case, outline level only; ODT: with / without "
          "default-outline-level) and whose root is based on nothing / the default style / an undefined style / a style of the "
          "chain (cycle), with the spec-computed level (nearest declaration wins), D every heading declaration x header/footer parts and nested list runs; each for DOCX and "
-         "ODT. H every history of 3 calls out of {Text, Markdown, MarkdownWithOptions, MarkdownWithRAGOptions x options, Document, ModelTables} on ONE reader over documents with headings of level 1..9 (ODT ..10), each call compared with the spec's levels for a fresh reader and with a fresh reader's result. Each case is rendered by the independent writers and read through docx.Open/odt.Open and tabula.Open "
+         "ODT. L every list tree of <= 3 (thorough 4) items over depths 0..3 with empty items, restarts, level jumps and (ODT) item-less wrappers / continuation paragraphs, also checked in the Lists() view; H every history of 3 calls out of {Text, Markdown, MarkdownWithOptions, MarkdownWithRAGOptions x options, Document, ModelTables} on ONE reader over documents with headings of level 1..9 (ODT ..10), each call compared with the spec's levels for a fresh reader and with a fresh reader's result. Each case is rendered by the independent writers and read through docx.Open/odt.Open and tabula.Open "
          "(Text, Markdown, Document). Non-trivial = body with a table or a paragraph mixing >= 3 inline kinds; distinct by "
          "format + body. Traces = documents (a sample of the cases + larger random ones) whose observed model WordDocTrace.tla accepted.",
     assumptions=["the DOCX/ODT writers (harness/internal/wpw) are trusted; they are audited for XML well-formedness, token numbering "
@@ -52,6 +52,12 @@ NOTES = """Interpretation choices (soundness first):
   history of <= 3 calls must present the heading levels the spec computes for a freshly opened reader, keep all tokens in
   order, and return byte-for-byte what the same call returns on a fresh reader.  The write-back reader (Markdown
   stores its capped level into the parsed paragraph) is refuted by TLC.
+* List trees (family L): a list is written as a sequence of item depths that may start deep, jump levels, contain
+  empty items and - ODT - a further paragraph of an item after its nested list; DOCX numbering may use a second
+  instance that restarts.  Every item text must be present once, in document order, at its depth (relative to the
+  shallowest item of the document) in Text / Markdown / Document and in the readers' Lists() view.  A paragraph that
+  follows a nested list inside its item is expected as a list entry of the item's depth; two paragraphs of one item
+  without a list between them (merge or split is a matter of taste) are not generated.  Empty items show nothing.
 * List nesting: model.ListItem.Level relative to the shallowest item; in Text/Markdown only the *direction* of the
   indentation change between consecutive items.  Ordered/unordered and the numbers themselves are not asserted.
 * Table grid: in the model every anchor cell at its (row, col) with its spans and tokens, nothing else non-empty, and
@@ -97,9 +103,9 @@ def run(ctx):
     neg = ctx.tlc("DocxOrderImplMC", "DocxOrderImpl_blind.cfg", workers=1, expect_violation=True)
     ctx.extra["docx_order_impl_refuted"] = neg["violated"]
     # R1 + R2: invariants checked and cases emitted in the same exhaustive runs
-    cfgs = ["WordDoc_A_quick.cfg", "WordDoc_B_quick.cfg", "WordDoc_C_quick.cfg", "WordDoc_D.cfg", "WordDoc_S.cfg"] if q else \
+    cfgs = ["WordDoc_A_quick.cfg", "WordDoc_B_quick.cfg", "WordDoc_C_quick.cfg", "WordDoc_D.cfg", "WordDoc_S.cfg", "WordDoc_L_quick.cfg"] if q else \
            ["WordDoc_A_thorough.cfg", "WordDoc_B_quick.cfg", "WordDoc_B_thorough.cfg", "WordDoc_B_thorough2.cfg",
-            "WordDoc_C_thorough.cfg", "WordDoc_D.cfg", "WordDoc_S.cfg"]
+            "WordDoc_C_thorough.cfg", "WordDoc_D.cfg", "WordDoc_S.cfg", "WordDoc_L_thorough.cfg"]
     cases, seen = [], set()
     for cfg in cfgs:
         gen = ctx.tlc("WordDocMC", cfg, workers=4 if q else 8, collect=True, timeout=3000)
